@@ -481,8 +481,12 @@ func execHistory(se *session, w, h int, ops []shadow.Op, eo execOpts) *viol {
 		switch o.K {
 		case "set", "setcell":
 			in := m.In(o.X, o.Y)
-			if in && m.IsHidden(o.X, o.Y) {
-				continue // writing into the hidden half of a wide rune is undefined
+			if in && m.IsHidden(o.X, o.Y) && !(eo.props["C13"] && len(eo.props) == 1) {
+				// What the display shows after a store into the hidden half of a wide rune is
+				// undefined (API note on SetContent), so C01 and C09 never do it. Which cells a
+				// Show writes is still stated: the wide rune to the left did not change, so with
+				// only C13's oracle armed the store is made (the covered cell counts as changed).
+				continue
 			}
 			st := o.Sp.Style()
 			if o.K == "setcell" {
